@@ -270,9 +270,17 @@ class PathState:
 def explore(run, max_paths=5000):
     """run(st) -> outcome.  Returns list of (PathState, outcome) for all feasible paths.
     An Unsupported raised by run() is returned as outcome ('unsupported', msg)."""
+    import os
+    import time
+    # wall-clock budget of the exploration of one kind combination: a changed function can multiply the paths (every
+    # new symbolic test forks); the contract is then reported undecided ("budget") instead of running for an hour
+    limit = 1800.0 if os.environ.get('VERIF_TIER') == 'thorough' else 180.0
+    t_start = time.time()
     work = [[]]
     results = []
     while work:
+        if time.time() - t_start > limit:
+            raise PathBudget(f"exploration took more than {int(limit)} s ({len(results)} paths so far)")
         prefix = work.pop()
         st = PathState(prefix)
         try:
